@@ -436,6 +436,12 @@ pub fn views(maxlen: usize) -> ViewResult {
         r.cases += 2;
         r.distinct += 2;
     }
+    // --- the exported UTF-8 predicate on the NULL + 0 empty string (what a default std::string_view passes)
+    if !unsafe { diplomat_is_str(std::ptr::null(), 0) } {
+        fail("diplomat_is_str(NULL, 0) is false; the empty string is valid UTF-8".into());
+    }
+    r.cases += 1;
+    r.distinct += 1;
     // --- diplomat_alloc / diplomat_free
     for size in 1..=64usize {
         for align in [1usize, 2, 4, 8] {
